@@ -1,7 +1,680 @@
-import AlgoVerif.Model.Resources
-namespace AlgoVerif.Props.C35
-open AlgoVerif.Model.Resources
+import AlgoVerif.Lemmas.Resources
+/-!
+C35 — "App programs can touch only resources made available to them".
 
-theorem stub_placeholder : sharedResourcesVersion = 9 := rfl
+`Model.Resources` replays resources.go / the eval.go resolvers / box.go; `Spec.Resources.Avail E r` is the declarative
+closure ("some transaction of the group declares it / it was created in the group / the transaction's own references
+name it / it is the called app or its account"), written without reference to the evaluator.
+
+All theorems quantify over EVERY group, reference list, operand and version; nothing is bounded.
+-/
+namespace AlgoVerif.Props.C35
+open AlgoVerif.Model.Resources AlgoVerif.Spec.Resources AlgoVerif.Lemmas.Resources
+
+/-! ## 1. access_only_if_available -/
+
+/-- **Soundness of every resolver.** Whatever opcode family, operand form (index / address, id / slot) and program
+version: if the resolver lets the access through, the resource it then touches is in `Avail`. -/
+theorem access_only_if_available (E : Env) (low : Bool) (acc : Access) (r : Resource)
+    (h : resolve (E.cx low) acc = .ok r) : Avail E r := by
+  have hver : (E.cx low).version = E.version := rfl
+  cases acc with
+  | acct arg =>
+    simp only [resolve] at h
+    cases h1 : accountReference (E.cx low) arg with
+    | error e => simp [h1, Except.map] at h
+    | ok p =>
+      simp only [h1, Except.map, Except.ok.injEq] at h
+      subst h
+      exact (availableAccount_iff E low p.1).1 (accountReference_sound (i := p.2) h1)
+  | holding arg ref =>
+    simp only [resolve] at h
+    cases h1 : holdingReference (E.cx low) arg ref with
+    | error e => simp [h1, Except.map] at h
+    | ok p =>
+      simp only [h1, Except.map, Except.ok.injEq] at h
+      subst h
+      obtain ⟨h9, h8, h4, _⟩ := holdingReference_sound (a := p.1) (id := p.2) h1
+      simp only [Avail]
+      by_cases hv : E.version ≥ sharedResourcesVersion
+      · rw [if_pos hv]
+        exact (allowsHolding_iff E low (by unfold sharedResourcesVersion createdResourcesVersion at *; omega) p.1 p.2).1 (h9 hv)
+      · rw [if_neg hv]
+        exact ⟨(availableAccount_iff E low p.1).1 (h8 (by rw [hver]; omega)),
+          fun hd => (availableAsset_iff E low p.2).1 (h4 hd)⟩
+  | assetParams ref =>
+    simp only [resolve] at h
+    cases h1 : assetReference (E.cx low) ref true with
+    | error e => simp [h1, Except.map] at h
+    | ok p =>
+      simp only [h1, Except.map, Except.ok.injEq] at h
+      subst h
+      exact (availableAsset_iff E low p).1 ((assetReference_sound h1).1 (Or.inr rfl))
+  | appParams ref =>
+    simp only [resolve] at h
+    cases h1 : appReference (E.cx low) ref true with
+    | error e => simp [h1, Except.map] at h
+    | ok p =>
+      simp only [h1, Except.map, Except.ok.injEq] at h
+      subst h
+      exact (availableApp_iff E low p).1 ((appReference_sound h1).1 (Or.inr rfl))
+  | locals arg ref =>
+    simp only [resolve] at h
+    cases h1 : localsReference (E.cx low) arg ref with
+    | error e => simp [h1, Except.map] at h
+    | ok p =>
+      simp only [h1, Except.map, Except.ok.injEq] at h
+      subst h
+      obtain ⟨h9, h8, h4, _⟩ := localsReference_sound (a := p.1) (id := p.2) h1
+      simp only [Avail]
+      by_cases hv : E.version ≥ sharedResourcesVersion
+      · rw [if_pos hv]
+        exact (allowsLocals_iff E low (by unfold sharedResourcesVersion createdResourcesVersion at *; omega) p.1 p.2).1 (h9 hv)
+      · rw [if_neg hv]
+        exact ⟨(availableAccount_iff E low p.1).1 (h8 (by rw [hver]; omega)),
+          fun hd => (availableApp_iff E low p.2).1 (h4 hd)⟩
+  | localMut arg =>
+    simp only [resolve] at h
+    cases h1 : localMutation (E.cx low) arg with
+    | error e => simp [h1, Except.map] at h
+    | ok p =>
+      simp only [h1, Except.map, Except.ok.injEq] at h
+      subst h
+      obtain ⟨hp, ha, h9, _⟩ := localMutation_sound (a := p.1) (p := p.2) h1
+      simp only [Avail]
+      by_cases hv : E.version ≥ sharedResourcesVersion
+      · rw [if_pos hv, hp]
+        exact (allowsLocals_iff E low (by unfold sharedResourcesVersion createdResourcesVersion at *; omega) p.1 _).1 (h9 hv)
+      · rw [if_neg hv]
+        exact ⟨(availableAccount_iff E low p.1).1 ha, fun _ => Or.inr (Or.inr (Or.inl hp))⟩
+  | setAccount a =>
+    simp only [resolve, assignAccount] at h
+    by_cases hav : availableAccount (E.cx low) a = true
+    · simp only [hav, if_true, Except.map, Except.ok.injEq] at h
+      subst h; exact (availableAccount_iff E low a).1 hav
+    · simp [hav, Except.map] at h
+  | setAsset id =>
+    simp only [resolve, assignAsset] at h
+    by_cases hav : availableAsset (E.cx low) id = true
+    · simp only [hav, if_true, Except.map, Except.ok.injEq] at h
+      subst h; exact (availableAsset_iff E low id).1 hav
+    · simp [hav, Except.map] at h
+  | setApp id =>
+    simp only [resolve, assignApp] at h
+    by_cases hav : availableApp (E.cx low) id = true
+    · simp only [hav, if_true, Except.map, Except.ok.injEq] at h
+      subst h; exact (availableApp_iff E low id).1 hav
+    · simp [hav, Except.map] at h
+
+/-- `Avail` is the evaluator's own closure, for EVERY group: what `computeAvailability` puts into the shared sets is
+exactly what some transaction of the group declares. -/
+theorem shared_sets_are_the_declared (g : List Txn) :
+    (∀ a, a ∈ (computeAvailability g).sharedAccounts ↔ ∃ tx ∈ g, DeclaresAccount tx a)
+    ∧ (∀ id, id ∈ (computeAvailability g).sharedAsas ↔ ∃ tx ∈ g, DeclaresAsset tx id)
+    ∧ (∀ p, p ∈ (computeAvailability g).sharedApps ↔ ∃ tx ∈ g, DeclaresApp tx p)
+    ∧ (∀ a id, (a, id) ∈ (computeAvailability g).sharedHoldings ↔ ∃ tx ∈ g, DeclaresHolding tx a id)
+    ∧ (∀ a p, (a, p) ∈ (computeAvailability g).sharedLocals ↔ ∃ tx ∈ g, DeclaresLocals tx a p) :=
+  ⟨shared_accounts_iff g, shared_asas_iff g, shared_apps_iff g, shared_holdings_iff g, shared_locals_iff g⟩
+
+/-! ## 2. available_access_ok (the converse, where the code intends it: direct references) -/
+
+/-- an available account named by its address resolves -/
+theorem available_account_ok (E : Env) (low : Bool) (a : Addr) (h : AvailAccount E a) :
+    ∃ i, accountReference (E.cx low) (.addr a) = .ok (a, i) := by
+  have hav := (availableAccount_iff E low a).2 h
+  unfold accountReference
+  simp only [resolveAccount, bind, Except.bind, pure, Except.pure]
+  cases hj : indexByAddress (E.cx low).snd (E.cx low).f a with
+  | some j => exact ⟨j, rfl⟩
+  | none => exact ⟨(E.cx low).f.accounts.length + 1, by simp [hav]⟩
+
+/-- an available asset named by its id resolves to itself (direct references: version ≥ 4; ids ≤ 255 are refused
+under AppForbidLowResources) -/
+theorem available_asset_ok (E : Env) (low : Bool) (id : Nat) (foreign : Bool) (h : AvailAsset E id)
+    (hv : E.version ≥ directRefEnabledVersion) (hl : low = true → id > lastForbiddenResource) :
+    assetReference (E.cx low) id foreign = .ok id := by
+  have hav := (availableAsset_iff E low id).2 h
+  have hv' : (E.cx low).version ≥ directRefEnabledVersion := hv
+  unfold assetReference resolveAsset lowGuard
+  simp only [hv', if_true, hav]
+  have : ¬ ((E.cx low).low = true ∧ id ≤ lastForbiddenResource) := by
+    rintro ⟨h1, h2⟩
+    have := hl h1
+    omega
+  simp [this]
+
+theorem available_app_ok (E : Env) (low : Bool) (p : Nat) (foreign : Bool) (h : AvailApp E p)
+    (hv : E.version ≥ directRefEnabledVersion) (h0 : p ≠ 0) (hl : low = true → p > lastForbiddenResource) :
+    appReference (E.cx low) p foreign = .ok p := by
+  have hav := (availableApp_iff E low p).2 h
+  have hv' : (E.cx low).version ≥ directRefEnabledVersion := hv
+  have hlow : ¬ ((E.cx low).low = true ∧ p ≤ lastForbiddenResource) := by
+    rintro ⟨h1, h2⟩
+    have := hl h1
+    omega
+  unfold appReference resolveApp lowGuard
+  simp only [hv', if_true]
+  by_cases hs : p = (E.cx low).appId
+  · have : (p = 0 ∨ p = (E.cx low).appId) := Or.inr hs
+    simp only [this, if_true]
+    rw [← hs]; simp [hlow]
+  · have : ¬ (p = 0 ∨ p = (E.cx low).appId) := by rintro (h | h); exact h0 h; exact hs h
+    simp [this, hav, hlow]
+
+/-- from sharedResourcesVersion: a holding that is available as a pair, whose asset is available, resolves -/
+theorem available_holding_ok (E : Env) (low : Bool) (a : Addr) (id : Nat)
+    (hv : E.version ≥ sharedResourcesVersion) (h : SharedHolding E a id) (hs : AvailAsset E id)
+    (hl : low = true → id > lastForbiddenResource) :
+    holdingReference (E.cx low) (.addr a) id = .ok (a, id) := by
+  have hv' : (E.cx low).version ≥ sharedResourcesVersion := hv
+  have hh := (allowsHolding_iff E low (by unfold sharedResourcesVersion createdResourcesVersion at *; omega) a id).2 h
+  have hr : resolveAsset (E.cx low) id = .ok id := by
+    have := available_asset_ok E low id false hs (by unfold sharedResourcesVersion directRefEnabledVersion at *; omega) hl
+    unfold assetReference at this
+    have hd : (E.cx low).version ≥ directRefEnabledVersion := by
+      unfold sharedResourcesVersion directRefEnabledVersion at *; exact Nat.le_trans (by omega) hv'
+    simpa [hd] using this
+  unfold holdingReference
+  simp [hv', resolveAccount, pure, Except.pure, hr, hh]
+
+theorem available_locals_ok (E : Env) (low : Bool) (a : Addr) (p : Nat)
+    (hv : E.version ≥ sharedResourcesVersion) (h : SharedLocals E a p) (hs : AvailApp E p) (h0 : p ≠ 0)
+    (hl : low = true → p > lastForbiddenResource) :
+    localsReference (E.cx low) (.addr a) p = .ok (a, p) := by
+  have hv' : (E.cx low).version ≥ sharedResourcesVersion := hv
+  have hh := (allowsLocals_iff E low (by unfold sharedResourcesVersion createdResourcesVersion at *; omega) a p).2 h
+  have hr : resolveApp (E.cx low) p = .ok p := by
+    have := available_app_ok E low p false hs (by unfold sharedResourcesVersion directRefEnabledVersion at *; omega) h0 hl
+    unfold appReference at this
+    have hd : (E.cx low).version ≥ directRefEnabledVersion := by
+      unfold sharedResourcesVersion directRefEnabledVersion at *; exact Nat.le_trans (by omega) hv'
+    simpa [hd] using this
+  unfold localsReference
+  simp [hv', resolveAccount, pure, Except.pure, hr, hh]
+
+/-- **Converse.** For direct references (the operand names the resource itself: an address, or — from version 4 —
+an asset / app id): a resource in `Avail` is let through. (Slot operands always resolve into the transaction's own
+arrays; the sub-255 ids under AppForbidLowResources and the id 0 = "called app" convention are the stated exceptions.) -/
+theorem available_access_ok (E : Env) (low : Bool) :
+    (∀ a, Avail E (.account a) → ∃ r, resolve (E.cx low) (.acct (.addr a)) = .ok r)
+    ∧ (∀ a, Avail E (.account a) → resolve (E.cx low) (.setAccount a) = .ok (.account a))
+    ∧ (∀ id, Avail E (.asset id) → resolve (E.cx low) (.setAsset id) = .ok (.asset id))
+    ∧ (∀ p, Avail E (.app p) → resolve (E.cx low) (.setApp p) = .ok (.app p))
+    ∧ (∀ id, E.version ≥ directRefEnabledVersion → (low = true → id > lastForbiddenResource) →
+        Avail E (.asset id) → resolve (E.cx low) (.assetParams id) = .ok (.asset id))
+    ∧ (∀ p, E.version ≥ directRefEnabledVersion → p ≠ 0 → (low = true → p > lastForbiddenResource) →
+        Avail E (.app p) → resolve (E.cx low) (.appParams p) = .ok (.app p))
+    ∧ (∀ a id, E.version ≥ sharedResourcesVersion → (low = true → id > lastForbiddenResource) →
+        Avail E (.holding a id) → Avail E (.asset id) → resolve (E.cx low) (.holding (.addr a) id) = .ok (.holding a id))
+    ∧ (∀ a p, E.version ≥ sharedResourcesVersion → p ≠ 0 → (low = true → p > lastForbiddenResource) →
+        Avail E (.locals a p) → Avail E (.app p) → resolve (E.cx low) (.locals (.addr a) p) = .ok (.locals a p)) := by
+  refine ⟨?_, ?_, ?_, ?_, ?_, ?_, ?_, ?_⟩
+  · intro a h
+    obtain ⟨i, hi⟩ := available_account_ok E low a h
+    exact ⟨.account a, by simp [resolve, hi, Except.map]⟩
+  · intro a h
+    simp [resolve, assignAccount, (availableAccount_iff E low a).2 h, Except.map]
+  · intro id h
+    simp [resolve, assignAsset, (availableAsset_iff E low id).2 h, Except.map]
+  · intro p h
+    simp [resolve, assignApp, (availableApp_iff E low p).2 h, Except.map]
+  · intro id hv hl h
+    simp [resolve, available_asset_ok E low id true h hv hl, Except.map]
+  · intro p hv h0 hl h
+    simp [resolve, available_app_ok E low p true h hv h0 hl, Except.map]
+  · intro a id hv hl h hs
+    simp only [Avail, if_pos hv] at h
+    simp [resolve, available_holding_ok E low a id hv h hs hl, Except.map]
+  · intro a p hv h0 hl h hs
+    simp only [Avail, if_pos hv] at h
+    simp [resolve, available_locals_ok E low a p hv h hs h0 hl, Except.map]
+
+/-! ## 3. holding_needs_both -/
+
+/-- **The exact rule for holdings / local states.**
+From sharedResourcesVersion a holding lookup succeeds only if the (account, asset) PAIR is declared by ONE transaction
+of the group, or the asset was created in the group (account available), or the account belongs to an app created in
+the group (asset available), or — simulation only — the policy grants it. Before sharedResourcesVersion it succeeds
+only if account and asset are each available to the transaction on its own. Same for local states. -/
+theorem holding_needs_both (E : Env) (low : Bool) (arg : AcctArg) (ref : Nat) (a : Addr) (id : Nat)
+    (h : holdingReference (E.cx low) arg ref = .ok (a, id)) :
+    (E.version ≥ sharedResourcesVersion →
+        (∃ tx ∈ E.group, DeclaresHolding tx a id)
+        ∨ (id ∈ E.createdAsas ∧ AvailAccount E a)
+        ∨ ((∃ c ∈ E.createdApps, a = appAddr c) ∧ AvailAsset E id)
+        ∨ (∃ p, E.policy = some p ∧ AvailAccount E a ∧ AvailAsset E id ∧ (a, id) ∈ p.holdings))
+    ∧ (E.version < sharedResourcesVersion →
+        AvailAccount E a ∧ (E.version ≥ directRefEnabledVersion → AvailAsset E id)) := by
+  have := access_only_if_available E low (.holding arg ref) (.holding a id) (by simp [resolve, h, Except.map])
+  simp only [Avail] at this
+  constructor
+  · intro hv; rw [if_pos hv] at this; exact this
+  · intro hv; rw [if_neg (by omega)] at this; exact this
+
+theorem locals_needs_both (E : Env) (low : Bool) (arg : AcctArg) (ref : Nat) (a : Addr) (p : Nat)
+    (h : localsReference (E.cx low) arg ref = .ok (a, p)) :
+    (E.version ≥ sharedResourcesVersion → SharedLocals E a p)
+    ∧ (E.version < sharedResourcesVersion →
+        AvailAccount E a ∧ (E.version ≥ directRefEnabledVersion → AvailApp E p)) := by
+  have := access_only_if_available E low (.locals arg ref) (.locals a p) (by simp [resolve, h, Except.map])
+  simp only [Avail] at this
+  constructor
+  · intro hv; rw [if_pos hv] at this; exact this
+  · intro hv; rw [if_neg (by omega)] at this; exact this
+
+/-- with foreign arrays the pair must come from ONE transaction: its account side and its asset side -/
+theorem foreign_pair_same_transaction (snd : Addr) (f : Appl) (hf : f.access = none) (a : Addr) (id : Nat) :
+    DeclaresHolding (.appl snd f) a id ↔ ForeignAccount snd f a ∧ id ∈ f.assets := by
+  simp [DeclaresHolding, hf]
+
+/-- an account named by one transaction and an asset named by another do NOT make the holding available: with nothing
+created in the group and no simulation policy, a holding that no single transaction declares is refused whatever the
+operands — even when account and asset are both available -/
+theorem holding_not_from_separate_txns (E : Env) (low : Bool) (a : Addr) (id : Nat)
+    (hv : E.version ≥ sharedResourcesVersion) (hp : E.policy = none) (hc1 : E.createdAsas = []) (hc2 : E.createdApps = [])
+    (hno : ∀ tx ∈ E.group, ¬ DeclaresHolding tx a id) (arg : AcctArg) (ref : Nat) :
+    holdingReference (E.cx low) arg ref ≠ .ok (a, id) := by
+  intro h
+  rcases (holding_needs_both E low arg ref a id h).1 hv with ⟨tx, ht, hd⟩ | ⟨hc, _⟩ | ⟨⟨c, hc, _⟩, _⟩ | ⟨p, hq, _⟩
+  · exact hno tx ht hd
+  · rw [hc1] at hc; cases hc
+  · rw [hc2] at hc; cases hc
+  · rw [hp] at hq; cases hq
+
+/-! ## 4. presharing_local -/
+
+/-- **Before sharedResourcesVersion availability is local**: `Avail` does not depend on the other transactions of the
+group at all — only on the transaction's own references, what was created earlier in the group, and the called app. -/
+theorem presharing_local (E : Env) (g' : List Txn) (hv : E.version < sharedResourcesVersion) (r : Resource) :
+    Avail E r ↔ Avail { E with group := g' } r := by
+  have n : ¬ E.version ≥ sharedResourcesVersion := by omega
+  have eA : ∀ a, AvailAccount E a ↔ AvailAccount { E with group := g' } a := by
+    intro a; simp [AvailAccount, OwnAccount, PolAccount, n]
+  have eS : ∀ a, AvailAsset E a ↔ AvailAsset { E with group := g' } a := by
+    intro a; simp [AvailAsset, OwnAsset, PolAsset, n]
+  have eP : ∀ a, AvailApp E a ↔ AvailApp { E with group := g' } a := by
+    intro a; simp [AvailApp, OwnApp, PolApp, n]
+  cases r with
+  | account a => exact eA a
+  | asset a => exact eS a
+  | app a => exact eP a
+  | holding a id => simp only [Avail, n, if_false]; rw [eA a, eS id]
+  | locals a p => simp only [Avail, n, if_false]; rw [eA a, eP p]
+
+/-- the same on the evaluator: a pre-sharing program never consults the shared sets -/
+theorem presharing_local_model (cx : Ctx) (r' : Res) (hv : cx.version < sharedResourcesVersion)
+    (h1 : r'.createdAsas = cx.res.createdAsas) (h2 : r'.createdApps = cx.res.createdApps) :
+    (∀ a, availableAccount { cx with res := r' } a = availableAccount cx a)
+    ∧ (∀ id, availableAsset { cx with res := r' } id = availableAsset cx id)
+    ∧ (∀ p, availableApp { cx with res := r' } p = availableApp cx p)
+    ∧ (∀ tx v, allows { cx with res := r' } tx v = .ok ()) := by
+  have n : ¬ cx.version ≥ sharedResourcesVersion := by omega
+  refine ⟨?_, ?_, ?_, ?_⟩
+  · intro a; simp [availableAccount, polAcct, n, h2]
+  · intro a; simp [availableAsset, polAsset, n, h1]
+  · intro a; simp [availableApp, polApp, n, h2]
+  · intro tx v; simp [allows, hv]
+
+/-! ## 5. avail_monotone -/
+
+/-- `tx'` is `tx` with references added (foreign arrays grow; every other transaction type is unchanged) -/
+def TxnLe : Txn → Txn → Prop
+  | .appl s f, .appl s' f' =>
+      s = s' ∧ f.appId = f'.appId ∧ f.access = none ∧ f'.access = none
+      ∧ (∀ a ∈ f.accounts, a ∈ f'.accounts) ∧ (∀ a ∈ f.assets, a ∈ f'.assets) ∧ (∀ a ∈ f.apps, a ∈ f'.apps)
+  | tx, tx' => tx = tx'
+
+/-- `E'` is `E` with references / transactions / created resources added -/
+structure EnvLe (E E' : Env) : Prop where
+  version : E.version = E'.version
+  appId : E.appId = E'.appId
+  snd : E.snd = E'.snd
+  policy : E.policy = E'.policy
+  group : ∀ tx ∈ E.group, ∃ tx' ∈ E'.group, TxnLe tx tx'
+  asas : ∀ x ∈ E.createdAsas, x ∈ E'.createdAsas
+  apps : ∀ x ∈ E.createdApps, x ∈ E'.createdApps
+  accounts : ∀ a ∈ E.f.accounts, a ∈ E'.f.accounts
+  assets : ∀ a ∈ E.f.assets, a ∈ E'.f.assets
+  fapps : ∀ a ∈ E.f.apps, a ∈ E'.f.apps
+  access : ∀ rr ∈ accessList E.f, rr ∈ accessList E'.f
+
+theorem foreignAccount_mono {s : Addr} {f f' : Appl} (hid : f.appId = f'.appId)
+    (h1 : ∀ a ∈ f.accounts, a ∈ f'.accounts) (h3 : ∀ a ∈ f.apps, a ∈ f'.apps) {a : Addr}
+    (h : ForeignAccount s f a) : ForeignAccount s f' a := by
+  rcases h with h | h | h | ⟨p, hp, h⟩
+  · exact Or.inl h
+  · exact Or.inr (Or.inl (h1 a h))
+  · exact Or.inr (Or.inr (Or.inl (hid ▸ h)))
+  · exact Or.inr (Or.inr (Or.inr ⟨p, h3 p hp, h⟩))
+
+theorem foreignApp_mono {f f' : Appl} (hid : f.appId = f'.appId) (h3 : ∀ a ∈ f.apps, a ∈ f'.apps) {p : Nat}
+    (h : ForeignApp f p) : ForeignApp f' p := by
+  rcases h with h | h
+  · exact Or.inl (hid ▸ h)
+  · exact Or.inr (h3 p h)
+
+theorem declares_mono {tx tx' : Txn} (hle : TxnLe tx tx') :
+    (∀ a, DeclaresAccount tx a → DeclaresAccount tx' a)
+    ∧ (∀ a, DeclaresAsset tx a → DeclaresAsset tx' a)
+    ∧ (∀ a, DeclaresApp tx a → DeclaresApp tx' a)
+    ∧ (∀ a id, DeclaresHolding tx a id → DeclaresHolding tx' a id)
+    ∧ (∀ a p, DeclaresLocals tx a p → DeclaresLocals tx' a p) := by
+  cases tx with
+  | appl s f =>
+    cases tx' with
+    | appl s' f' =>
+      obtain ⟨rfl, hid, hn, hn', h1, h2, h3⟩ := hle
+      refine ⟨?_, ?_, ?_, ?_, ?_⟩
+      · intro a h; simp only [DeclaresAccount, hn, hn'] at h ⊢; exact foreignAccount_mono hid h1 h3 h
+      · intro a h; simp only [DeclaresAsset, hn, hn'] at h ⊢; exact h2 a h
+      · intro a h; simp only [DeclaresApp, hn, hn'] at h ⊢; exact foreignApp_mono hid h3 h
+      · intro a id h; simp only [DeclaresHolding, hn, hn'] at h ⊢; exact ⟨foreignAccount_mono hid h1 h3 h.1, h2 id h.2⟩
+      · intro a p h; simp only [DeclaresLocals, hn, hn'] at h ⊢
+        exact ⟨foreignAccount_mono hid h1 h3 h.1, foreignApp_mono hid h3 h.2⟩
+    | pay _ _ _ => simp [TxnLe] at hle
+    | keyreg _ => simp [TxnLe] at hle
+    | acfg _ _ => simp [TxnLe] at hle
+    | axfer _ _ _ _ _ => simp [TxnLe] at hle
+    | afrz _ _ _ => simp [TxnLe] at hle
+    | other _ => simp [TxnLe] at hle
+  | pay _ _ _ => simp only [TxnLe] at hle; subst hle; exact ⟨fun _ h => h, fun _ h => h, fun _ h => h, fun _ _ h => h, fun _ _ h => h⟩
+  | keyreg _ => simp only [TxnLe] at hle; subst hle; exact ⟨fun _ h => h, fun _ h => h, fun _ h => h, fun _ _ h => h, fun _ _ h => h⟩
+  | acfg _ _ => simp only [TxnLe] at hle; subst hle; exact ⟨fun _ h => h, fun _ h => h, fun _ h => h, fun _ _ h => h, fun _ _ h => h⟩
+  | axfer _ _ _ _ _ => simp only [TxnLe] at hle; subst hle; exact ⟨fun _ h => h, fun _ h => h, fun _ h => h, fun _ _ h => h, fun _ _ h => h⟩
+  | afrz _ _ _ => simp only [TxnLe] at hle; subst hle; exact ⟨fun _ h => h, fun _ h => h, fun _ h => h, fun _ _ h => h, fun _ _ h => h⟩
+  | other _ => simp only [TxnLe] at hle; subst hle; exact ⟨fun _ h => h, fun _ h => h, fun _ h => h, fun _ _ h => h, fun _ _ h => h⟩
+
+theorem availAccount_mono {E E' : Env} (le : EnvLe E E') {a : Addr} (h : AvailAccount E a) : AvailAccount E' a := by
+  rcases h with h | h | h | h | h | h
+  · left
+    rcases h with h | h | ⟨rr, hr, h⟩
+    · exact Or.inl (le.snd ▸ h)
+    · exact Or.inr (Or.inl (le.accounts a h))
+    · exact Or.inr (Or.inr ⟨rr, le.access rr hr, h⟩)
+  · obtain ⟨hv, c, hc, e⟩ := h
+    exact Or.inr (Or.inl ⟨le.version ▸ hv, c, le.apps c hc, e⟩)
+  · obtain ⟨hv, tx, ht, hd⟩ := h
+    obtain ⟨tx', ht', hle⟩ := le.group tx ht
+    exact Or.inr (Or.inr (Or.inl ⟨le.version ▸ hv, tx', ht', (declares_mono hle).1 a hd⟩))
+  · obtain ⟨hv, p, hp, e⟩ := h
+    exact Or.inr (Or.inr (Or.inr (Or.inl ⟨le.version ▸ hv, p, le.fapps p hp, e⟩)))
+  · exact Or.inr (Or.inr (Or.inr (Or.inr (Or.inl (le.appId ▸ h)))))
+  · obtain ⟨p, hp, hm⟩ := h
+    exact Or.inr (Or.inr (Or.inr (Or.inr (Or.inr ⟨p, le.policy ▸ hp, hm⟩))))
+
+theorem availAsset_mono {E E' : Env} (le : EnvLe E E') {id : Nat} (h : AvailAsset E id) : AvailAsset E' id := by
+  rcases h with h | h | h | h
+  · left
+    rcases h with h | ⟨rr, hr, h⟩
+    · exact Or.inl (le.assets id h)
+    · exact Or.inr ⟨rr, le.access rr hr, h⟩
+  · exact Or.inr (Or.inl ⟨le.version ▸ h.1, le.asas id h.2⟩)
+  · obtain ⟨hv, tx, ht, hd⟩ := h
+    obtain ⟨tx', ht', hle⟩ := le.group tx ht
+    exact Or.inr (Or.inr (Or.inl ⟨le.version ▸ hv, tx', ht', (declares_mono hle).2.1 id hd⟩))
+  · obtain ⟨p, hp, hm⟩ := h
+    exact Or.inr (Or.inr (Or.inr ⟨p, le.policy ▸ hp, hm⟩))
+
+theorem availApp_mono {E E' : Env} (le : EnvLe E E') {id : Nat} (h : AvailApp E id) : AvailApp E' id := by
+  rcases h with h | h | h | h | h
+  · left
+    rcases h with h | ⟨rr, hr, h⟩
+    · exact Or.inl (le.fapps id h)
+    · exact Or.inr ⟨rr, le.access rr hr, h⟩
+  · exact Or.inr (Or.inl ⟨le.version ▸ h.1, le.apps id h.2⟩)
+  · exact Or.inr (Or.inr (Or.inl (le.appId ▸ h)))
+  · obtain ⟨hv, tx, ht, hd⟩ := h
+    obtain ⟨tx', ht', hle⟩ := le.group tx ht
+    exact Or.inr (Or.inr (Or.inr (Or.inl ⟨le.version ▸ hv, tx', ht', (declares_mono hle).2.2.1 id hd⟩)))
+  · obtain ⟨p, hp, hm⟩ := h
+    exact Or.inr (Or.inr (Or.inr (Or.inr ⟨p, le.policy ▸ hp, hm⟩)))
+
+/-- **Adding a reference never removes availability**: more transactions in the group, more entries in the
+transaction's own arrays or in another transaction's foreign arrays, more created resources — `Avail` only grows. -/
+theorem avail_monotone {E E' : Env} (le : EnvLe E E') (r : Resource) (h : Avail E r) : Avail E' r := by
+  cases r with
+  | account a => exact availAccount_mono le h
+  | asset a => exact availAsset_mono le h
+  | app a => exact availApp_mono le h
+  | holding a id =>
+    simp only [Avail] at h ⊢
+    rw [← le.version]
+    by_cases hv : E.version ≥ sharedResourcesVersion
+    · rw [if_pos hv] at h ⊢
+      rcases h with ⟨tx, ht, hd⟩ | ⟨hc, ha⟩ | ⟨⟨c, hc, e⟩, hs⟩ | ⟨p, hp, ha, hs, hm⟩
+      · obtain ⟨tx', ht', hle⟩ := le.group tx ht
+        exact Or.inl ⟨tx', ht', (declares_mono hle).2.2.2.1 a id hd⟩
+      · exact Or.inr (Or.inl ⟨le.asas id hc, availAccount_mono le ha⟩)
+      · exact Or.inr (Or.inr (Or.inl ⟨⟨c, le.apps c hc, e⟩, availAsset_mono le hs⟩))
+      · exact Or.inr (Or.inr (Or.inr ⟨p, le.policy ▸ hp, availAccount_mono le ha, availAsset_mono le hs, hm⟩))
+    · rw [if_neg hv] at h ⊢
+      exact ⟨availAccount_mono le h.1, fun hd => availAsset_mono le (h.2 hd)⟩
+  | locals a p =>
+    simp only [Avail] at h ⊢
+    rw [← le.version]
+    by_cases hv : E.version ≥ sharedResourcesVersion
+    · rw [if_pos hv] at h ⊢
+      rcases h with ⟨tx, ht, hd⟩ | ⟨hc, ha⟩ | ⟨⟨c, hc, e⟩, hs⟩ | ⟨q, hp, hs, ha, hm⟩
+      · obtain ⟨tx', ht', hle⟩ := le.group tx ht
+        exact Or.inl ⟨tx', ht', (declares_mono hle).2.2.2.2 a p hd⟩
+      · exact Or.inr (Or.inl ⟨le.apps p hc, availAccount_mono le ha⟩)
+      · exact Or.inr (Or.inr (Or.inl ⟨⟨c, le.apps c hc, e⟩, availApp_mono le hs⟩))
+      · exact Or.inr (Or.inr (Or.inr ⟨q, le.policy ▸ hp, availApp_mono le hs, availAccount_mono le ha, hm⟩))
+    · rw [if_neg hv] at h ⊢
+      exact ⟨availAccount_mono le h.1, fun hd => availApp_mono le (h.2 hd)⟩
+
+/-! ## 6. inner_allows -/
+
+/-- what a pre-sharing callee would get from the inner app call's own arrays: the cross products -/
+def innerCrossHoldings (snd : Addr) (appId : Nat) (accounts : List Addr) (assets apps : List Nat) : List (Addr × Nat) :=
+  (innerTxAccounts snd appId accounts apps).flatMap fun a => assets.map fun id => (a, id)
+def innerCrossLocals (snd : Addr) (appId : Nat) (accounts : List Addr) (apps : List Nat) : List (Addr × Nat) :=
+  (innerTxAccounts snd appId accounts apps).flatMap fun a =>
+    ((if appId ≠ 0 then [appId] else []) ++ apps).map fun id => (a, id)
+
+/-- the cross products are exactly what `fill` would share for that transaction (the callee's view) -/
+theorem innerCross_is_fill (snd : Addr) (appId : Nat) (accounts : List Addr) (assets apps : List Nat) :
+    (contrib (.appl snd { appId := appId, accounts := accounts, assets := assets, apps := apps })).holdings
+      = innerCrossHoldings snd appId accounts assets apps
+    ∧ (contrib (.appl snd { appId := appId, accounts := accounts, assets := assets, apps := apps })).locals
+      = innerCrossLocals snd appId accounts apps := by
+  constructor <;> rfl
+
+/-- **An inner transaction may only name what the caller has.** If `allows` lets an inner transaction of a
+sharing-version caller (≥ 9) through:
+ * an inner app call of a PRE-sharing callee (which will treat account × asset / account × app cross products of its
+   own arrays as available) only carries cross products the caller itself may touch;
+ * an inner asset transfer / freeze only touches holdings the caller itself may touch.
+(For a callee of version ≥ 9 nothing is needed: it runs against the same `resources` and checks for itself; for a
+caller of version < 9 every resource it can name is one of its own, so all cross products are its own.) -/
+theorem inner_allows (cx : Ctx) (hv : cx.version ≥ sharedResourcesVersion) :
+    (∀ snd appId accounts assets apps calleeVer, calleeVer < sharedResourcesVersion →
+        allows cx (.appl snd appId accounts assets apps) calleeVer = .ok () →
+        (∀ h ∈ innerCrossHoldings snd appId accounts assets apps, h.2 = 0 ∨ h.1 = .zero ∨ allowsHolding cx h.1 h.2 = true)
+        ∧ (∀ l ∈ innerCrossLocals snd appId accounts apps, allowsLocals cx l.1 l.2 = true))
+    ∧ (∀ snd asset rcv asnd aclose v, allows cx (.axfer snd asset rcv asnd aclose) v = .ok () →
+        ∀ a, (a = rcv ∨ a = asnd ∨ a = aclose ∨ (asnd = .zero ∧ a = snd)) →
+          asset = 0 ∨ a = .zero ∨ allowsHolding cx a asset = true)
+    ∧ (∀ snd asset acct v, allows cx (.afrz snd asset acct) v = .ok () →
+        asset = 0 ∨ acct = .zero ∨ allowsHolding cx acct asset = true) := by
+  have n : ¬ cx.version < sharedResourcesVersion := by omega
+  refine ⟨?_, ?_, ?_⟩
+  · intro snd appId accounts assets apps cv hcv h
+    have ncv : ¬ cv ≥ sharedResourcesVersion := by omega
+    simp only [allows, n, if_false, ncv] at h
+    rw [forM_ok] at h
+    constructor
+    · intro hh hm
+      simp only [innerCrossHoldings, List.mem_flatMap, List.mem_map] at hm
+      obtain ⟨a, ha, id, hid, rfl⟩ := hm
+      exact ((allowsApplAddr_ok cx appId assets apps a).1 (h a ha)).1 id hid
+    · intro l hm
+      simp only [innerCrossLocals, List.mem_flatMap, List.mem_map, List.mem_append] at hm
+      obtain ⟨a, ha, id, hid, rfl⟩ := hm
+      have := (allowsApplAddr_ok cx appId assets apps a).1 (h a ha)
+      rcases hid with hid | hid
+      · by_cases h0 : appId ≠ 0
+        · simp [h0] at hid; subst hid; exact this.2.1 h0
+        · simp [h0] at hid
+      · exact this.2.2 id hid
+  · intro snd asset rcv asnd aclose v h a ha
+    simp only [allows, n, if_false] at h
+    by_cases hz : asnd = .zero
+    · simp only [hz, if_true, bind, Except.bind] at h
+      cases h1 : requireHolding cx snd asset with
+      | error e => simp [h1] at h
+      | ok u1 =>
+        simp only [h1] at h
+        cases h2 : requireHolding cx rcv asset with
+        | error e => simp [h2] at h
+        | ok u2 =>
+          simp only [h2] at h
+          cases h3 : requireHolding cx .zero asset with
+          | error e => simp [h3] at h
+          | ok u3 =>
+            simp only [h3] at h
+            rcases ha with rfl | rfl | rfl | ⟨_, rfl⟩
+            · exact (requireHolding_ok cx _ asset).1 h2
+            · exact Or.inr (Or.inl hz)
+            · exact (requireHolding_ok cx _ asset).1 h
+            · exact (requireHolding_ok cx _ asset).1 h1
+    · simp only [hz, if_false, bind, Except.bind, pure, Except.pure] at h
+      cases h2 : requireHolding cx rcv asset with
+      | error e => simp [h2] at h
+      | ok u2 =>
+        simp only [h2] at h
+        cases h3 : requireHolding cx asnd asset with
+        | error e => simp [h3] at h
+        | ok u3 =>
+          simp only [h3] at h
+          rcases ha with rfl | rfl | rfl | ⟨hz', _⟩
+          · exact (requireHolding_ok cx _ asset).1 h2
+          · exact (requireHolding_ok cx _ asset).1 h3
+          · exact (requireHolding_ok cx _ asset).1 h
+          · exact absurd hz' hz
+  · intro snd asset acct v h
+    simp only [allows, n, if_false] at h
+    exact (requireHolding_ok cx acct asset).1 h
+
+/-! ## 7. boxes -/
+
+/-- box keys a transaction's references name at computeAvailability time, declaratively: index 0 names a box of the
+app the REFERENCING transaction calls (never another app's), index i > 0 names a box of ForeignApps[i-1] -/
+theorem foreign_box_named (f : Appl) (k : BoxKey) :
+    k ∈ foreignBoxKeys f ↔ ∃ br ∈ f.boxes,
+      (br.1 = 0 ∧ f.appId ≠ 0 ∧ k = (f.appId, br.2))
+      ∨ (br.1 > 0 ∧ ∃ app, f.apps[br.1 - 1]? = some app ∧
+          ((app ≠ 0 ∧ k = (app, br.2)) ∨ (app = 0 ∧ f.appId ≠ 0 ∧ k = (f.appId, br.2)))) := by
+  unfold foreignBoxKeys
+  simp only [List.mem_flatMap]
+  constructor
+  · rintro ⟨br, hb, hk⟩
+    refine ⟨br, hb, ?_⟩
+    by_cases h0 : br.1 > 0
+    · simp only [h0, if_true] at hk
+      right
+      refine ⟨h0, ?_⟩
+      by_cases hlen : br.1 > f.apps.length
+      · simp [hlen] at hk
+      · simp only [hlen, if_false] at hk
+        cases hg : f.apps[br.1 - 1]? with
+        | none => simp [hg] at hk
+        | some app =>
+          refine ⟨app, rfl, ?_⟩
+          simp only [hg, shareBoxKey] at hk
+          by_cases ha : app = 0
+          · simp only [ha, if_true] at hk
+            by_cases hc : f.appId = 0
+            · simp [hc] at hk
+            · simp only [hc, if_false, List.mem_singleton] at hk
+              exact Or.inr ⟨ha, hc, hk⟩
+          · simp only [ha, if_false, List.mem_singleton] at hk
+            exact Or.inl ⟨ha, hk⟩
+    · have hz : br.1 = 0 := by omega
+      simp only [h0, if_false, shareBoxKey, if_true] at hk
+      left
+      by_cases hc : f.appId = 0
+      · simp [hc] at hk
+      · simp only [hc, if_false, List.mem_singleton] at hk
+        exact ⟨hz, hc, hk⟩
+  · rintro ⟨br, hb, h⟩
+    refine ⟨br, hb, ?_⟩
+    rcases h with ⟨hz, hc, rfl⟩ | ⟨h0, app, hg, h⟩
+    · have : ¬ br.1 > 0 := by omega
+      simp [this, shareBoxKey, hc]
+    · have hlen : ¬ br.1 > f.apps.length := by
+        intro hl
+        have : f.apps[br.1 - 1]? = none := List.getElem?_eq_none (by omega)
+        rw [this] at hg; cases hg
+      simp only [h0, if_true, hlen, if_false, hg]
+      rcases h with ⟨ha, rfl⟩ | ⟨ha, hc, rfl⟩
+      · simp [shareBoxKey, ha]
+      · simp [shareBoxKey, ha, hc]
+
+/-- **A box access gets past the availability gate only if the box was made available**: its key is in the group's
+box map (for every group: exactly the keys some transaction's references name, plus the keys entered by EvalContract
+for a creation's index-0 references and by earlier unnamed accesses), or the box belongs to an app created in this
+group and a spare (empty) box reference is still unused, or — simulation only — the policy grants it. A ClearState
+program never reaches a box. -/
+theorem box_access_only_if_available (w : World) (cx : Ctx) (k : BoxKey) (op : BoxOp) (sz : Nat)
+    (hn : (availableAppBox w cx k op sz).2 ≠ .deny .nobox) (hc : (availableAppBox w cx k op sz).2 ≠ .deny .clearbox) :
+    cx.f.oc ≠ 3 ∧ (k ∈ boxKeys cx.res.boxes
+      ∨ (k.1 ∈ cx.res.createdApps ∧ cx.res.unnamedAccess > 0)
+      ∨ ∃ p, cx.policy = some p ∧ k ∈ p.boxes) :=
+  availableAppBox_named hn hc
+
+/-- the group's box map right after computeAvailability, for EVERY group -/
+theorem box_map_is_the_named (g : List Txn) (k : BoxKey) :
+    k ∈ boxKeys (computeAvailability g).boxes ↔ ∃ tx ∈ g, k ∈ (contrib tx).boxes :=
+  shared_boxes_iff g k
+
+/-! ## non-vacuity: concrete instances -/
+
+def u (n : Nat) : Addr := .user n
+
+instance {α : Type} [DecidableEq α] : DecidableEq (Except Deny α) := fun a b =>
+  match a, b with
+  | .ok x, .ok y => if h : x = y then isTrue (by rw [h]) else isFalse (fun e => h (by cases e; rfl))
+  | .error x, .error y => if h : x = y then isTrue (by rw [h]) else isFalse (fun e => h (by cases e; rfl))
+  | .ok _, .error _ => isFalse (fun e => by cases e)
+  | .error _, .ok _ => isFalse (fun e => by cases e)
+
+/-- tx0 names account u2, tx1 names asset 300; tx1 runs a version-9 program -/
+def exSplit : Env :=
+  { group := [.appl (u 1) { appId := 500, accounts := [u 2] }, .appl (u 3) { appId := 501, assets := [300] }]
+    createdAsas := [], createdApps := [], version := 9, appId := 501, snd := u 3, f := { appId := 501, assets := [300] } }
+
+-- both components are available to tx1 …
+example : availableAccount exSplit.cx (u 2) = true ∧ availableAsset exSplit.cx 300 = true := by decide
+-- … the holding is not (holding_not_from_separate_txns applies: no transaction declares the pair)
+example : holdingReference exSplit.cx (.addr (u 2)) 300 = .error .nohold := by decide
+example : ∀ tx ∈ exSplit.group, ¬ DeclaresHolding tx (u 2) 300 := by
+  intro tx ht
+  simp only [exSplit, List.mem_cons, List.mem_nil_iff, or_false] at ht
+  rcases ht with rfl | rfl <;> simp [DeclaresHolding, ForeignAccount, u, appAddr]
+-- the sender's own holding of its own foreign asset is (available_access_ok is not vacuous)
+example : resolve exSplit.cx (.holding (.addr (u 3)) 300) = .ok (.holding (u 3) 300) := by decide
+-- the same program at version 8 does not even see u2 (presharing_local)
+example : accountReference { exSplit.cx with version := 8 } (.addr (u 2)) = .error .noacct := by decide
+-- an inner axfer to u2 of asset 300 is refused to the version-9 caller (inner_allows is not vacuous) …
+example : allows exSplit.cx (.axfer (appAddr 501) 300 (u 2) .zero .zero) 0 = .error .innerNohold := by decide
+-- … and one to the sender passes
+example : allows exSplit.cx (.axfer (u 3) 300 (u 3) .zero .zero) 0 = .ok () := by decide
+-- EnvLe: adding asset 300 to tx0's ForeignAssets makes the pair available (avail_monotone's hypothesis is satisfiable)
+def exJoined : Env :=
+  { exSplit with group := [.appl (u 1) { appId := 500, accounts := [u 2], assets := [300] }, .appl (u 3) { appId := 501, assets := [300] }] }
+example : EnvLe exSplit exJoined :=
+  { version := rfl, appId := rfl, snd := rfl, policy := rfl
+    group := by
+      intro tx ht
+      simp only [exSplit, List.mem_cons, List.mem_nil_iff, or_false] at ht
+      rcases ht with rfl | rfl
+      · exact ⟨_, List.mem_cons_self, by simp [TxnLe]⟩
+      · exact ⟨_, List.mem_cons_of_mem _ List.mem_cons_self, by simp [TxnLe]⟩
+    asas := fun _ h => h, apps := fun _ h => h, accounts := fun _ h => h, assets := fun _ h => h
+    fapps := fun _ h => h, access := fun _ h => h }
+example : holdingReference exJoined.cx (.addr (u 2)) 300 = .ok (u 2, 300) := by decide
+-- a box named with index 0 by a call of app 500 is a box of app 500 only
+example : foreignBoxKeys { appId := 500, apps := [501], boxes := [(0, "b"), (1, "c")] } = [(500, "b"), (501, "c")] := by decide
 
 end AlgoVerif.Props.C35
